@@ -338,6 +338,108 @@ theorem root_resolve_eq_inserted (v : Version) (blocks : List (Nat × Nat × Lis
         (fun b' hb' r' hr' hq' hm' => hu b' hb' r' hr' (by simpa using hq') hm')
 
 open Cascette.Model.RootFile Cascette.Proofs.RootFile in
+/-- **root_lookup_entries_eq_inserted (the lookup tables keep one entry per inserted record, with its own
+block's locale and content flags).** Under the hypotheses of `root_parse_build`, on the
+built-then-parsed root, for EVERY FileDataID (1–3) and every name hash (4–6): (1) the entry list the
+lookup tables hold under that key (`get_entries_by_id`), read as (locale, content flags, content key),
+is a PERMUTATION of the inserted records of that key, each with the flags of the block it was
+inserted into — nothing dropped, nothing merged, also when several blocks list the file with the
+identical content key; (2) every entry's `block_index` names a parsed block that has exactly the
+entry's flags and holds a record of the key with the entry's content key; (3) `resolve_by_id` is
+`find` over that entry list with the locale/content test, for every query. -/
+theorem root_lookup_entries_eq_inserted (v : Version) (blocks : List (Nat × Nat × List Rec)) (hne : blocks ≠ [])
+    (hg : ∀ b ∈ blocks, GoodBlock v b.1 b.2.1 b.2.2) (htot : totalOf blocks < 4294967296)
+    (hamb : v = .v2 → ¬ Ambiguous (totalOf blocks) (namedOf blocks)) :
+    ∃ bytes p, build v blocks = some bytes ∧ parse bytes = some p ∧
+      (∀ fdid,
+        ((p.entriesById fdid).map Entry.flagsKey).Perm (insertedEntries (·.fdid == fdid) blocks) ∧
+        (∀ e ∈ p.entriesById fdid, ∃ b, p.blocks[e.blockIndex]? = some b ∧ e.locale = b.locale ∧
+          e.content = b.content ∧ ∃ r ∈ b.recs, r.fdid = fdid ∧ r.ckey = e.ckey) ∧
+        (∀ loc cf, p.resolveById fdid loc cf =
+          ((p.entriesById fdid).find? (fun e => entryMatches e.locale e.content loc cf)).map (·.ckey))) ∧
+      (∀ hash,
+        ((p.entriesByHash hash).map Entry.flagsKey).Perm (insertedEntries (·.nameHash == some hash) blocks) ∧
+        (∀ e ∈ p.entriesByHash hash, ∃ b, p.blocks[e.blockIndex]? = some b ∧ e.locale = b.locale ∧
+          e.content = b.content ∧ ∃ r ∈ b.recs, r.nameHash = some hash ∧ r.ckey = e.ckey) ∧
+        (∀ loc cf, p.resolveByHash hash loc cf =
+          ((p.entriesByHash hash).find? (fun e => entryMatches e.locale e.content loc cf)).map (·.ckey))) := by
+  obtain ⟨bytes, hb, hp⟩ := parse_build v blocks hne hg htot hamb
+  refine ⟨bytes, _, hb, hp, ?_, ?_⟩
+  · intro fdid
+    refine ⟨entries_built_perm _ blocks 0, ?_, ?_⟩
+    · intro e he
+      obtain ⟨b, hb', _, h1, h2, r, hr, hq, hck⟩ := entriesFrom_index _ _ 0 e he
+      exact ⟨b, by simpa using hb', h1, h2, r, hr, by simpa using hq, hck⟩
+    · intro loc cf
+      rw [resolveById_eq]
+      exact resolveGen_eq_find_entries _ loc cf _ 0
+  · intro hash
+    refine ⟨entries_built_perm _ blocks 0, ?_, ?_⟩
+    · intro e he
+      obtain ⟨b, hb', _, h1, h2, r, hr, hq, hck⟩ := entriesFrom_index _ _ 0 e he
+      exact ⟨b, by simpa using hb', h1, h2, r, hr, by simpa using hq, hck⟩
+    · intro loc cf
+      rw [resolveByHash_eq]
+      exact resolveGen_eq_find_entries _ loc cf _ 0
+
+open Cascette.Model.RootFile Cascette.Proofs.RootFile in
+/-- **root_own_flags_lookup_hits (a file is found under the flags of EVERY block that lists it).** Under
+the hypotheses of `root_parse_build`: for every inserted block `b` (non-zero locale mask) and every
+record `r` of it, `resolve_by_id r.fdid` asked with `b`'s own locale and content flags returns a content
+key — never nothing — and it is `r`'s key whenever the inserted records of that FileDataID in blocks
+matching `b`'s flags agree on the key (in particular for a locale-independent file listed by many
+blocks with one key, and for blocks with pairwise disjoint locales). Same for `resolve_by_hash`. -/
+theorem root_own_flags_lookup_hits (v : Version) (blocks : List (Nat × Nat × List Rec)) (hne : blocks ≠ [])
+    (hg : ∀ b ∈ blocks, GoodBlock v b.1 b.2.1 b.2.2) (htot : totalOf blocks < 4294967296)
+    (hamb : v = .v2 → ¬ Ambiguous (totalOf blocks) (namedOf blocks)) :
+    ∃ bytes p, build v blocks = some bytes ∧ parse bytes = some p ∧
+      ∀ b ∈ blocks, b.1 ≠ 0 → ∀ r ∈ b.2.2,
+        (p.resolveById r.fdid b.1 b.2.1).isSome = true ∧
+        ((∀ b' ∈ blocks, ∀ r' ∈ b'.2.2, r'.fdid = r.fdid → entryMatches b'.1 b'.2.1 b.1 b.2.1 = true → r'.ckey = r.ckey) →
+          p.resolveById r.fdid b.1 b.2.1 = some r.ckey) ∧
+        (∀ h, r.nameHash = some h →
+          (p.resolveByHash h b.1 b.2.1).isSome = true ∧
+          ((∀ b' ∈ blocks, ∀ r' ∈ b'.2.2, r'.nameHash = some h → entryMatches b'.1 b'.2.1 b.1 b.2.1 = true → r'.ckey = r.ckey) →
+            p.resolveByHash h b.1 b.2.1 = some r.ckey)) := by
+  obtain ⟨bytes, p, hb, hp, _, hid, hnh⟩ := root_resolve_eq_inserted v blocks hne hg htot hamb
+  refine ⟨bytes, p, hb, hp, ?_⟩
+  intro b hbm hl r hr
+  have hself := entryMatches_self b.1 b.2.1 hl
+  obtain ⟨_, hnone, hex⟩ := hid r.fdid b.1 b.2.1
+  refine ⟨?_, ?_, ?_⟩
+  · cases hres : p.resolveById r.fdid b.1 b.2.1 with
+    | some _ => rfl
+    | none =>
+      have := hnone.1 hres b hbm r hr rfl
+      rw [hself] at this; cases this
+  · intro hu
+    exact hex b hbm r hr rfl hself hu
+  · intro h hh
+    obtain ⟨_, hnone', hex'⟩ := hnh h b.1 b.2.1
+    refine ⟨?_, ?_⟩
+    · cases hres : p.resolveByHash h b.1 b.2.1 with
+      | some _ => rfl
+      | none =>
+        have := hnone'.1 hres b hbm r hr hh
+        rw [hself] at this; cases this
+    · intro hu
+      exact hex' b hbm r hr hh hself hu
+
+open Cascette.Model.RootFile Cascette.Proofs.RootFile in
+/-- test (kernel-evaluated instance of the model, labelled as a test): a file listed by three locale
+blocks with the IDENTICAL content key has three lookup-table entries and resolves under each block's own
+locale; a locale no block has gives nothing -/
+example :
+    let ck : Bytes := List.replicate 16 0xAA
+    let p : Parsed := { version := .v3, header := none, blocks :=
+      [⟨1, 2, 4, [⟨1002, ck, none⟩]⟩, ⟨1, 16, 4, [⟨1002, ck, none⟩]⟩, ⟨1, 32, 4, [⟨1002, ck, none⟩]⟩] }
+    p.resolveById 1002 2 4 = some ck ∧ p.resolveById 1002 16 4 = some ck ∧ p.resolveById 1002 32 4 = some ck ∧
+    p.resolveById 1002 64 4 = none ∧ p.resolveById 1002 32 12 = none ∧
+    (p.entriesById 1002).map Entry.flagsKey = [(2, 4, ck), (16, 4, ck), (32, 4, ck)] ∧
+    (p.entriesById 1002).map (·.blockIndex) = [0, 1, 2] := by
+  decide
+
+open Cascette.Model.RootFile Cascette.Proofs.RootFile in
 /-- non-vacuity of the whole-root theorems: a V4 manifest with a named block (two records, inserted in
 descending FileDataID order) and an unnamed block with a 33-bit content flag, and a V2 manifest with
 one named record (1 file: outside the ambiguity window) meet every hypothesis. -/
